@@ -190,6 +190,11 @@ def lambdas():
         "fn main() { let s = 0; for i in 0..3 { let f = fn(k: int) -> int { let g = fn(m: int) -> int { m + 1 }; g(k) * 2 }; s += f(i); } println(s); }",
         "fn rec(n: int) -> int { let step = fn(k: int) -> int { k - 1 }; if n <= 0 { 0 } else { 1 + rec(step(n)) } } fn main() { println(rec(5)); }",
         "fn main() { let f = fn() -> fn() -> int { fn() -> int { 9 } }; let g = f(); println(g(), f()()); let h = fn() -> int { 8 }; println(h()); }",
+        # the arguments of a literal's call are evaluated in the CALLER's scopes; the call does not disturb the caller's scopes
+        "fn mk() -> fn(a: int) -> int { let y = 100; fn(a: int) -> int { a + 1 } } fn main() { let f = mk(); let y = 5; println(f(y)); }",
+        "fn main() { let f = fn(q: int) -> int { q + 1 }; let i = 0; while i < 2 { i += 1; let a = 5 * i; if a > 0 { let b = a + 1; let r = f(b); println(a, b, r); }; } println(i); }",
+        "fn main() { let f = fn() -> int { 1 }; { let a = 5; { let c = 7; let r = f(); println(a, c, r); } println(a); } }",
+        "fn f() -> int { let x = { return 3; } + 1; x } fn g() -> str { let y = throw(\"t\") + \"a\"; y } fn main() { println(f()); try { println(g()); } catch e { println(e.message); }; }",
         # function values print and compare the same on both backends
         "fn g() -> int { 2 } fn main() { let f = fn() -> int { 1 }; println(f); println(g); println([f, g]); let o = new { h: f }; println(o); println(f == f, f == g, g != g); println(println); }",
     ]
@@ -202,6 +207,7 @@ def feature_corpus():
     the feature, against the specification (C01)."""
     return [
  "fn main() { println([1.0, 2.5, -3.0].to_json()); let o = new { a: 2.0, b: 100.0, c: [0.0] }; println(o.to_json()); println(o.to_json_indent()); }",
+ "fn main() { let o = new { ? }; try { o.set(\"self\", o); } catch e { println(e.message); }; println(o); let l = [o]; try { o.set(\"l\", l); } catch e { println(\"2\", e.message); }; let p = new { ? }; p.set(\"o\", o); o.set(\"k\", 1); println(p); try { o.set(\"p\", ?p); } catch e { println(\"3\"); }; println(o == p); }",
  # every evaluation of a literal creates a fresh container (loop body, function called twice, recursion)
  "fn mk(k: str) -> { ? } { let o = new { ? }; o.set(k, 1); o } fn main() { let a = mk(\"a\"); let b = mk(\"b\"); println(a.keys(), b.keys(), a == b); for i in 0..3 { let o = new { ? }; o.set(i.to_string(), i); println(o.keys(), o.get(\"0\")); } }",
  "fn mk(n: int) -> [int] { let l = [0]; l.push(n); l } fn mo(n: int) -> { a: int, l: [int] } { let o = new { a: 0, l: [0] }; o.a += n; o.l.push(n); o } fn main() { let a = mk(1); let b = mk(2); println(a, b); let p = mo(1); let q = mo(2); println(p, q, p == q); for i in 0..3 { let l = [[i]]; l[0].push(9); println(l); } }",
